@@ -104,7 +104,7 @@ func namedGraph(name string) (*Graph, string) {
 func init() {
 	Register(Meta{
 		ID: "C12", Level: "exploration",
-		Rule: "every report produced by: C01 propositional formulas (size<=1) on the truth-table graph, the C01 quantifier and depth families, C02 paths (<=2 leaves) on the collision suite, a level-mix family (multi-branch formulas in all three levels at once on the 16-node truth table, >=11 results per level), nested chains of depth 1..3 with sibling quantifiers on a 4-layer fan graph (several sub-results per trace, several traces per result), and the C14 lexical documents. Each report is walked completely by an oracle written from the statement (JSON, one instance, one report node, every typed node has an @id, all @ids pairwise distinct, focus nodes grounded in the input, validation names defined, non-empty message/trace, trace entries complete). Non-trivial = report with at least one result; distinct by report text.",
+		Rule:        "every report produced by: C01 propositional formulas (size<=1) on the truth-table graph, the C01 quantifier and depth families, C02 paths (<=2 leaves) on the collision suite, a level-mix family (multi-branch formulas in all three levels at once on the 16-node truth table, >=11 results per level), nested chains of depth 1..3 with sibling quantifiers on a 4-layer fan graph (several sub-results per trace, several traces per result), and the C14 lexical documents. Each report is walked completely by an oracle written from the statement (JSON, one instance, one report node, every typed node has an @id, all @ids pairwise distinct, focus nodes grounded in the input, validation names defined, non-empty message/trace, trace entries complete). Non-trivial = report with at least one result; distinct by report text.",
 		Assumptions: []string{"node table of the input taken from the abstract graph the document was rendered from"},
 	}, c12Gen, c12Run)
 }
